@@ -236,3 +236,13 @@ Definition positives (arg : string) : list string := filter (fun t => negb (has_
 Definition negatives (arg : string) : list string :=
   map (fun t => match t with String _ r => r | EmptyString => EmptyString end) (filter has_bang (tokens arg)).
 Definition any_listed (arg : string) : bool := existsb is_any (positives arg).
+
+(* sanity of the vocabulary: the tokens are exactly the comma-free pieces of the argument *)
+Fixpoint join_comma (l : list string) : string :=
+  match l with
+  | [] => ""
+  | [x] => x
+  | x :: r => x ++ String comma (join_comma r)
+  end.
+Definition no_comma (s : string) : bool := negb (existsb (Ascii.eqb comma) (list_ascii_of_string s)).
+Definition no_newline (s : string) : bool := negb (existsb (Ascii.eqb newline) (list_ascii_of_string s)).
